@@ -71,6 +71,7 @@ RULES = [
  ('member of that one array formula its place says', 'C05', 'range-over-two-array-formulas ({=A1:A2} next to {=A1:A2*10}, the same text over two targets)'),
  ('compares with the stored results of the workbook when iterative', 'C12', 'altered-cell-not-reported/* (workbook saved with iterative calculation on: precedents were recalculated before they were compared)'),
  ('is fitted to its range like any other result', 'C13', 'array-range-element-wrong/* ({=OFFSET(A1,0,0,2,4)} over a larger or smaller target read the neighbouring cells instead of repeating / filling with #N/A)'),
+ ('written with leading zeros in a formula compiles', 'C02', 'number-literal/leading-zeros-* (=007, =ABS(007): python rejects the literal)'),
  ('an array and an error value', 'C13', 'array-formula-member-not-pointwise/array-with-error-valued-scalar'),
 ]
 
